@@ -4,6 +4,7 @@ import MorfuseModel.Emit.MasterLemmas
 import MorfuseModel.Emit.Fixup
 import MorfuseModel.Emit.ArenaFits
 import MorfuseModel.Emit.SimFits
+import MorfuseModel.Gen.OpcodeTable
 /-!
 # C01 — compilation is total: any source text is accepted or cleanly rejected
 
@@ -185,9 +186,13 @@ theorem C01_code_fits_partial (s : St) (bs : List Nat) (k : Nat) :
     · unfold St.moveBack; simp [hc]
 
 /-- **The code fits, for the class `Node.plain`** (second partial result towards `C01_code_fits`).  For **every** tree of
-the decidable class `Node.plain` — everything except a unary minus on something else than an integer or float literal
-(the constant folding reads code bytes back through the 32-byte ring; for a literal just emitted either manager reads
-back what it wrote: `Emit/Bytes.lean`, `Emit/SimNeg.lean`): labels with parameters, assignments, reads of variables (the `LOAD_x_VAR → LOAD_STORE_x_VAR` fusion
+the decidable class `Node.plain` — everything except the following: a unary minus (`.f1 OP_UN_MINUS x`) whose operand `x`
+is neither an integer / float literal (`Node.isLit`) nor of a kind whose emission ends in an opcode without
+operand-literal (`Node.endsNL`: field reads, binary and other unary operators with operator opcodes, array access,
+commands with a result, strings, `NIL`, `NULL`, vectors, listeners, constant arrays, `!`, `&&`, `||`) — in practice a
+minus applied to another minus (`-(-5)`), or to a statement-like node.  (The constant folding reads code bytes back
+through the 32-byte ring; a literal just emitted is read back by either manager as written: `Emit/Bytes.lean`; after an
+`endsNL` operand nothing is read: `Emit/WinOk.lean`, `Emit/TopNL.lean`; `Emit/SimNeg.lean`.)  In the class: labels with parameters, assignments, reads of variables (the `LOAD_x_VAR → LOAD_STORE_x_VAR` fusion
 included), `if`, `if/else`, `while`, `for`, `do`, `break`, `continue`, `switch` with its case labels, `try` / `catch`, `&&`,
 `||`, `!`, all binary and the other unary operators, literals of every width, strings, vectors, arrays, constant arrays,
 built-in getters, script and method commands with any number of arguments; listener bytes as the parser produces them —
@@ -201,8 +206,9 @@ fix-up counters and flags), kept by every primitive in lock-step (`Emit/Sim.lean
 each pass takes (`Emit/Fuse.lean`), by the state scripts and counting sub-emitters of `try` / `switch`
 (`Emit/SimNest.lean`) and by every constructor of the class (`Emit/SimEmit*.lean`); monotonicity of `progLength`
 (`Emit/Mono.lean`) and "a counting emitter never reports a code overflow" (`Emit/NoCO.lean`) hold for all trees.
-*Still missing for the full statement:* unary minus on other operands (the top opcode after the operand, or a
-byte-agreement invariant that survives `AbsorbPrevOpcode`). -/
+*Still missing for the full statement:* a minus on an operand that itself ends in a literal (nested minus): the
+agreement of the bytes read back has to be carried through the operand's emission.  About 3 % of the generated trees;
+the check counts them and demands the per-tree certificate of each. -/
 theorem C01_code_fits_partial2 (dev : Bool) (root : Node) (hpl : root.plain = true) :
     compile dev root ≠ .error (.ub .codeOverflow) :=
   plain_compile_fits dev root hpl
@@ -216,9 +222,27 @@ example : (Node.list (.cons (.assign (.field 1 1 0 0 (.listener 2)) (.int 0))
         (.cons (.cmd 3 true (.cons (.str 4) (.cons (.int 7) .nil)))
           (.cons (.assign (.field 1 1 0 0 (.listener 2)) (.int 1)) .nil)))) .none) .nil))).plain = true := by decide
 
+/-- so are `-local.x` and `-(local.a + 1)`; `-(-5)` is not -/
+example : (Node.f1 Gen.EmitConsts.OP_UN_MINUS (.field 1 1 0 0 (.listener 2))).plain = true
+    ∧ (Node.f1 Gen.EmitConsts.OP_UN_MINUS (.f2 Gen.EmitConsts.OP_BIN_PLUS (.field 1 1 0 0 (.listener 2)) (.int 1))).plain = true
+    ∧ (Node.f1 Gen.EmitConsts.OP_UN_MINUS (.f1 Gen.EmitConsts.OP_UN_MINUS (.int 5))).plain = false := by decide
+
 /-- negative literals are in the class: `local.a = -5`, `local.b = -1.5` -/
 example : (Node.list (.cons (.assign (.field 1 1 0 0 (.listener 2)) (.f1 Gen.EmitConsts.OP_UN_MINUS (.int 5)))
     (.cons (.assign (.field 2 2 0 0 (.listener 2)) (.f1 Gen.EmitConsts.OP_UN_MINUS (.float 1069547520))) .nil))).plain = true := by decide
+
+/-- **The two regenerated opcode tables are the same table.**  `Gen/EmitConsts.lean` (C01's translator: `OpcodeInfo[]`
+read through its accessors in the built binary) and `Gen/OpcodeTable.lean` (C02's translator: the rows of
+`ScriptOpcodes.cpp`) agree entry by entry — length, stack offset, external flag — for every opcode of `opcode_e`, and
+on `OP_PREVIOUS`: the emitter model (C01) and the verifier / VM model (C02) decode with the same numbers. -/
+theorem C01_opcode_tables_agree (o : Bytecode.Gen.Opcode) :
+    Gen.EmitConsts.opLenTbl[o.code]? = some o.tableLength ∧ Gen.EmitConsts.opStackTbl[o.code]? = some o.tableStack ∧
+    Gen.EmitConsts.opExtTbl[o.code]? = some o.tableExternal ∧ o.code < Gen.EmitConsts.opPrevious ∧
+    Gen.EmitConsts.opPrevious = Bytecode.Gen.OP_PREVIOUS ∧ Gen.EmitConsts.opLenTbl.size = Bytecode.Gen.OP_PREVIOUS := by
+  cases o <;> decide
+
+example : Gen.EmitConsts.opLenTbl[Gen.EmitConsts.OP_SWITCH]? = some Bytecode.Gen.Opcode.OP_SWITCH.tableLength :=
+  (C01_opcode_tables_agree .OP_SWITCH).1
 
 /-- non-vacuity: a one-byte buffer takes one byte and refuses the second -/
 example : ((({ St.init false with progLen := 1, buf := Tbl.mk' 1 0 } : St).write [7]).toOption.map (·.pos)) = some 1 := by
